@@ -10,7 +10,7 @@ use crate::acts::*;
 use crate::taps::*;
 use crate::world::*;
 
-pub const DI: i128 = D as i128;
+
 
 #[derive(Clone, Debug)]
 pub struct TraderObs {
@@ -216,7 +216,7 @@ pub fn transfers(w: &World, include_failed: bool) -> Vec<Xfer> {
             }
             (DKind::Bank, None) => {
                 for (den, amt) in &d.funds {
-                    if den == DENOM {
+                    if den == w.denom {
                         out.push(Xfer {
                             idx: d.idx,
                             from: d.sender.clone(),
@@ -296,7 +296,7 @@ pub fn size_of(p: &Position) -> i128 {
     itoi(&p.size)
 }
 pub fn owed_of(p: &Position, cum: i128) -> i128 {
-    tdiv((cum - itoi(&p.last_updated_premium_fraction)) * size_of(p), DI)
+    tdiv((cum - itoi(&p.last_updated_premium_fraction)) * size_of(p), di())
 }
 
 /// Reference margin ratio as stated in C06: the PnL of smaller magnitude among spot and 15-min TWAP;
@@ -318,15 +318,15 @@ pub fn ref_ratio(t: &TraderObs, v: &VammObs, with_oracle: bool) -> Option<i128> 
     }
     let owed = owed_of(p, v.cum);
     let rem = p.margin.u128() as i128 + pnl - owed;
-    let mut r = tdiv(rem * DI, notional);
+    let mut r = tdiv(rem * di(), notional);
     if with_oracle && v.oracle > 0 {
         let spot = v.spot as i128;
-        let spread = tdiv((spot - v.oracle) * DI, v.oracle).abs();
-        if spread >= DI / 10 {
-            let on = tdiv(v.oracle * p.size.value.u128() as i128, DI);
+        let spread = tdiv((spot - v.oracle) * di(), v.oracle).abs();
+        if spread >= di() / 10 {
+            let on = tdiv(v.oracle * p.size.value.u128() as i128, di());
             if on > 0 {
                 let opnl = pnl_of(p, on);
-                let orr = tdiv((p.margin.u128() as i128 + opnl - owed) * DI, on);
+                let orr = tdiv((p.margin.u128() as i128 + opnl - owed) * di(), on);
                 if orr > r {
                     r = orr;
                 }
